@@ -8782,8 +8782,15 @@ class TreeSequence:
         return out
 
     def _expand_indices(self, x: np.ndarray, indices: np.ndarray) -> np.ndarray:
+        # Rows of the weight matrix are in the order of self.samples(), which
+        # are not necessarily nodes 0, ..., n - 1: map node IDs to sample indexes.
+        sample_index = np.full(self.num_nodes, tskit.NULL, dtype=np.int64)
+        sample_index[self.samples()] = np.arange(self.num_samples)
+        rows = sample_index[indices]
+        if np.any(rows == tskit.NULL):
+            raise ValueError("Nodes must be samples")
         y = np.zeros((self.num_samples, x.shape[1]))
-        y[indices] = x
+        y[rows] = x
 
         return y
 
